@@ -30,6 +30,11 @@ Theorem num_nan_inf_refused :
 Proof. exact num_nan_inf_refused_proof. Qed.
 Print Assumptions num_nan_inf_refused.
 
+(* an int that float() cannot hold (it rounds to 2^1024 or beyond) is refused like NaN / Infinity *)
+Theorem canon_refuses_too_large_int : forall z, float_overflows z = true -> canon (JInt z) = JRaise ValueError.
+Proof. exact canon_refuses_too_large_int_proof. Qed.
+Print Assumptions canon_refuses_too_large_int.
+
 (* ---- strings --------------------------------------------------------------------- *)
 Theorem canon_escape_minimal : forall s, escape s = rfc_escape s.
 Proof. exact canon_escape_minimal_proof. Qed.
